@@ -8,7 +8,7 @@ var charTable = map[string]rune{
 	"SP": ' ', "TAB": '\t', "NBSP": ' ', "IDSP": '　', "CR": '\r', "NL": '\n',
 	"E": 'é', "BS": '\\', "CTL": '\x01', "U": '€',
 	"-": '-', "+": '+', ".": '.', "_": '_', "!": '!',
-	"<": '<', "=": '=', ">": '>', "&": '&', "|": '|', "*": '*', "/": '/', "%": '%',
+	":": ':', "<": '<', "=": '=', ">": '>', "&": '&', "|": '|', "*": '*', "/": '/', "%": '%',
 }
 var runeTable = map[rune]string{}
 
